@@ -28,6 +28,7 @@ type apiHist struct {
 	itClean bool // no Insert / Remove since the iterator was opened
 	itOut   []*testTx
 	onRead  int
+	dead    bool // a call into the real pool panicked where the model has no panic: the history stops there
 	terms   []string
 	log     []any
 	feats   map[string]bool
@@ -79,6 +80,9 @@ func yieldTerm(t *testTx, done, panicked bool) string {
 }
 
 func (h *apiHist) insert(e *env, s int, n uint64, kinds []int, ante int64, extra ...sn) {
+	if h.dead {
+		return
+	}
 	tx := e.mkTx(s, n)
 	for _, x := range extra {
 		tx.pubs = append(tx.pubs, e.pubs[x.s])
@@ -94,7 +98,12 @@ func (h *apiHist) insert(e *env, s int, n uint64, kinds []int, ante int64, extra
 	prio := e.prio.GetTxPriority(ctx, tx)
 	before := h.mp.CountTx()
 	old, dup := h.pend[sn{s, n}]
-	err := h.mp.Insert(ctx, tx)
+	err, pan := safely(func() error { return h.mp.Insert(ctx, tx) })
+	if pan != nil {
+		e.run.Violate("C19:insert-panics", fmt.Sprintf("Insert(sender %d, nonce %d) panicked: %v", s, n, pan), h.replay())
+		h.dead = true
+		return
+	}
 	res := "IOk"
 	switch {
 	case err == nil && h.maxTx < 0:
@@ -152,7 +161,15 @@ func cmp64(a, b int64) int {
 }
 
 func (h *apiHist) remove(e *env, s int, n uint64) {
-	err := h.mp.Remove(e.mkTx(s, n))
+	if h.dead {
+		return
+	}
+	err, pan := safely(func() error { return h.mp.Remove(e.mkTx(s, n)) })
+	if pan != nil {
+		e.run.Violate("C19:remove-panics", fmt.Sprintf("Remove(sender %d, nonce %d) panicked: %v", s, n, pan), h.replay())
+		h.dead = true
+		return
+	}
 	_, was := h.pend[sn{s, n}]
 	if (err == nil) != was {
 		// outside the premise too: Remove is keyed by (first signer, sequence) whatever was inserted
@@ -179,7 +196,18 @@ func guarded(f func() sdkmempool.Iterator) (it sdkmempool.Iterator, panicked boo
 func (h *apiHist) position(e *env, kind string, it sdkmempool.Iterator, panicked bool) {
 	var cur *testTx
 	if it != nil {
-		cur = it.Tx().(*testTx)
+		func() { // Tx() of the position reached (under recover: the model's Tx() never panics)
+			defer func() {
+				if r := recover(); r != nil {
+					e.run.Violate("C19:iterator-tx-panics", fmt.Sprintf("Iterator.Tx() panicked: %v", r), h.replay())
+					it, h.dead = nil, true
+				}
+			}()
+			cur = it.Tx().(*testTx)
+		}()
+		if h.dead {
+			return
+		}
 		h.itOut = append(h.itOut, cur)
 	}
 	h.it = it
@@ -225,6 +253,9 @@ func (h *apiHist) position(e *env, kind string, it sdkmempool.Iterator, panicked
 }
 
 func (h *apiHist) open(e *env) {
+	if h.dead {
+		return
+	}
 	h.itOut = nil
 	h.itClean = true
 	it, panicked := guarded(func() sdkmempool.Iterator { return h.mp.Select(ctxWith(0), nil) })
@@ -233,7 +264,7 @@ func (h *apiHist) open(e *env) {
 }
 
 func (h *apiHist) next(e *env) {
-	if h.it == nil {
+	if h.it == nil || h.dead {
 		return
 	}
 	cur := h.it
@@ -246,6 +277,9 @@ func (h *apiHist) next(e *env) {
 }
 
 func (h *apiHist) nextSender(e *env, s int) {
+	if h.dead {
+		return
+	}
 	var got sdk.Tx
 	panicked := false
 	func() {
@@ -287,7 +321,15 @@ func (h *apiHist) nextSender(e *env, s int) {
 }
 
 func (h *apiHist) isEmpty(e *env) {
-	err := palomamempool.IsEmpty[int64](h.mp)
+	if h.dead {
+		return
+	}
+	err, pan := safely(func() error { return palomamempool.IsEmpty[int64](h.mp) })
+	if pan != nil {
+		e.run.Violate("C19:is-empty", fmt.Sprintf("IsEmpty panicked: %v", pan), h.replay())
+		h.dead = true
+		return
+	}
 	if (err == nil) != (len(h.pend) == 0) {
 		e.run.Violate("C19:is-empty", fmt.Sprintf("IsEmpty = %v but %d transactions are pending", err, len(h.pend)), h.replay())
 	}
@@ -337,7 +379,7 @@ func (e *env) genAPIHistory() {
 	nops := 3 + r.Intn(18)
 	dupHeavy := r.Intn(3) == 0
 	tieHeavy := r.Intn(2) == 0
-	for i := 0; i < nops; i++ {
+	for i := 0; i < nops && !h.dead; i++ {
 		x := r.Intn(100)
 		switch {
 		case x < 40:
@@ -414,11 +456,13 @@ func (e *env) genAPIHistory() {
 		}
 	}
 	// finish the open iteration, then the final observations
-	for k := 0; h.it != nil && k < 64; k++ {
+	for k := 0; h.it != nil && k < 64 && !h.dead; k++ {
 		h.next(e)
 	}
-	h.nextSender(e, senders[0])
-	h.isEmpty(e)
+	if !h.dead {
+		h.nextSender(e, senders[0])
+		h.isEmpty(e)
+	}
 	h.finish(e)
 }
 
